@@ -10,7 +10,7 @@ SPACES = [" ", "\t", " ", "　", " ", "  "]
 ODD = ["", " ", "'", "h", "m", "-1", "+1", "0x1", "1e3", "1''", "1'h", "1 2", "1_0", "²", "½", "Ⅻ", "一", "١٢", "٣'", "१२३",
        "𝟙𝟚", "4294967296", "4294967295", "4294967295'", "2147483648'", "99999999999999999999999", "00000000001", "0'", "1.0", "m'", "M",
        "​1", "1​", "é", "😀", "1/", "//", "1p", "1P", "1H", "٠",
-       "4294967296'", "4294967296h", "4294967296p", "2147483648h", "10000000000'", "99999999999999999999999p", "4294967295h", "2147483647'", "2147483647p"]
+       "9" * 4300, "9" * 4301, "1" * 5000 + "'", "0" * 4400 + "7", "4294967296'", "4294967296h", "4294967296p", "2147483648h", "10000000000'", "99999999999999999999999p", "4294967295h", "2147483647'", "2147483647p"]
 
 
 def spell(rng, elems, absolute):
